@@ -14,7 +14,7 @@ Model of `coloquinte::TransportationProblem` and of the solver
   code could run into (`top()` of an empty queue, a cycle in `sinkParent_`) are `Except.error`s.
 * `while` loops: `sendSource` uses `remaining` itself as fuel (every round sends ≥ 1 or an assert
   fails); the two walks along `sinkParent_` use `nbSinks + 1` (a longer walk is a cycle, on which
-  the C++ would not terminate); `updateTree`'s `while (true)` uses `treeFuel` (see there).
+  the C++ would not terminate); `updateTree`'s `while (true)` uses `treeFuel` (see there; proved sufficient).
 * `costsFromIntegers` (float costs → fixed point) is computed with `Float` (IEEE double), the very
   operations of the C++; the theorems are about the resulting integer costs.
 -/
@@ -304,9 +304,13 @@ def treeLoop (n : Nat) (qs : Queues) (remCapa : List Int) : Nat → Tree → Exc
       | .ok t' => treeLoop n qs remCapa fuel { t' with toVisit := t'.toVisit.set bv false }
 
 /-- Fuel of `updateTree`'s `while (true)`.  The loop is a label-correcting shortest-path search that
-always settles the smallest open label; without negative cycles it makes at most `n·2ⁿ` rounds
-(Johnson 1973), in practice a few more than `n`.  Exhaustion is reported as an error, never hidden. -/
-def treeFuel (n : Nat) : Nat := n * 2 ^ n + 1
+always settles the smallest open label.  Every round closes one open sink and every successful
+relaxation lowers an integer label by at least 1 while opening at most one sink, so
+`#open + Σ labels` drops by at least 1 per round; labels stay in `[0, intMax]` (they are bounded
+below by the previous potentials), hence at most `n·(intMax+1) = n·2³¹` rounds
+(`Proofs/TranspSsp2Tree.lean`; in practice a few more than `n`).  Exhaustion is reported as an
+error, never hidden. -/
+def treeFuel (n : Nat) : Nat := n * 2147483648 + 1
 
 def updateTree (p : Problem) (qs : Queues) (remCapa : List Int) : Except String Tree :=
   treeLoop p.nbSinks qs remCapa (treeFuel p.nbSinks)
